@@ -68,6 +68,10 @@ func (vc *VC) autoInline(callee *ssa.Function) bool {
 	if !strings.HasPrefix(fnPkgPath(callee), modulePath) {
 		return false
 	}
+	// field/curve arithmetic (embedded limb arrays, constant-time bit tricks) is outside the subset: always havoc
+	if strings.HasSuffix(fnPkgPath(callee), "/ed25519/edwards25519") {
+		return false
+	}
 	n := 0
 	for _, b := range callee.Blocks {
 		for _, ins := range b.Instrs {
@@ -258,6 +262,11 @@ func (vc *VC) call(fr *Frame, st *State, ins ssa.Instruction, cc *ssa.CallCommon
 		if full == "errors.New" || full == "fmt.Errorf" {
 			vc.assume(st, tNot(tEq(v.T, mk("(mk-iface 0 0)", sortIface))))
 		}
+		if full == "(*math/big.Int).Bytes" {
+			// big.Int.Bytes slices a buffer obtained from make, so its result is never nil (also for zero)
+			vc.usedLib("big.Int.Bytes (non-nil result)")
+			vc.assume(st, tNot(tEq(mk("(sl-ref "+v.T.S+")", sortRef), mk("0", sortRef))))
+		}
 		setRes(v)
 		return
 	}
@@ -346,6 +355,11 @@ func (vc *VC) applyContract(fr *Frame, st *State, con *Contract, callee *ssa.Fun
 	vc.usedContracts[key] = true
 	if con.opt("trusted") {
 		vc.trusted[key] = true
+	}
+	for _, e := range con.Ensures {
+		if strings.HasSuffix(e.Label, "!assumed") {
+			vc.trusted[key+" ["+e.Label+"] "+e.Src+" (clause assumed, not proved)"] = true
+		}
 	}
 	names := map[string]SVal{}
 	pnames := paramNames(callee, sig, cc)
